@@ -300,6 +300,7 @@ impl World {
 		self.nodes[n].live = Some(Live { manager, monitor, watch, persister });
 		self.nodes[n].incarnation += 1;
 		self.nodes[n].inherited_terminal = inherited;
+		self.nodes[n].live_since_step = self.step;
 		self.nodes[n].watch_cursor = 0;
 		self.nodes[n].outdated_chans.clear();
 		let lg = self.nodes[n].disk.lock().unwrap().loaded_generation;
